@@ -22,3 +22,37 @@ def readers_of_attribute(attr):
                     out.append(os.path.relpath(p, root))
                     break
     return sorted(out)
+
+
+def writers_of_attribute(attr, relpath):
+    """Qualified names of the functions in one library file that assign `<expr>.<attr>`."""
+    import xknx
+
+    p = os.path.join(os.path.dirname(xknx.__file__), relpath)
+    with open(p, encoding="utf-8") as fh:
+        tree = ast.parse(fh.read(), p)
+    out = set()
+
+    def walk(node, qual):
+        for ch in ast.iter_child_nodes(node):
+            if isinstance(ch, (ast.FunctionDef, ast.AsyncFunctionDef, ast.ClassDef)):
+                walk(ch, qual + [ch.name])
+            else:
+                for n in ast.walk(ch):
+                    if isinstance(n, ast.Attribute) and n.attr == attr and isinstance(n.ctx, (ast.Store, ast.Del)):
+                        out.add(".".join(qual))
+                if not isinstance(ch, (ast.FunctionDef, ast.AsyncFunctionDef, ast.ClassDef)):
+                    pass
+
+    def visit(node, qual):
+        for ch in ast.iter_child_nodes(node):
+            if isinstance(ch, ast.ClassDef):
+                visit(ch, qual + [ch.name])
+            elif isinstance(ch, (ast.FunctionDef, ast.AsyncFunctionDef)):
+                q = qual + [ch.name]
+                for n in ast.walk(ch):
+                    if isinstance(n, ast.Attribute) and n.attr == attr and isinstance(n.ctx, (ast.Store, ast.Del)):
+                        out.add(".".join(q))
+
+    visit(tree, [])
+    return sorted(out)
